@@ -52,6 +52,12 @@ CHECKS = {
  "C15": dict(engine="enum", technique="bounded-exhaustive enumeration of descriptors over adversarial pools, all pairs compared by grouping, all const-label map iteration orders realised",
    text="All ~25k descriptors over boundary-shifting name/value/help pools with <=2 constant and <=2 variable labels are built through Desc::new (constant-label map in every iteration order) and through Opts (every insertion order); id / dim_hash equality must coincide with structural-key equality over all pairs (grouping both ways), rebuilds must agree.",
    note="pool strings only; genuine 64-bit collisions exempt", ref="6 C15"),
+ "C04": dict(engine="enum", technique="bounded-exhaustive enumeration of families/streams/call histories through all three text entry points, read back by an independent 0.0.4 parser",
+   text="Every family of a bounded adversarial generator (4 types x every float class in every float slot x 12 bucket/quantile shapes x label shapes with every string of an escape-heavy pool x timestamps), all pairs/triples of a basis as streams, gathered registry output and encode-call histories (failing writer at every byte, refused family, repeated encode, mutate-then-re-encode) is encoded by encode / encode_utf8 / encode_to_string: identical bytes, UTF-8, append-only, and the independent parser returns exactly the encoded families.",
+   note="string/float pools fixed; names valid; UNTYPED refused by the encoder (C17)", ref="6 C04"),
+ "C13": dict(engine="enum", technique="bounded-exhaustive enumeration of families/streams/call histories through ProtobufEncoder, decoded by an independent wire decoder driven by proto_model.proto",
+   text="The same generator over all five metric types, streams, gathered output, refused families at every stream position and encode-call histories (failing writer at every byte offset, mutate through setters / public fields / clone then re-encode): the stream must frame exactly one length-delimited message per family and decode bit-exactly to the encoded families.",
+   note="decoder in harness/src/pbwire.rs trusted; schema read from the repo's .proto at run time", ref="6 C13"),
 }
 
 NOT_YET = "check not built yet in this round; planned per DESIGN.md section 6"
